@@ -254,6 +254,13 @@ class InputFactory:
             return SymInput(sort, fn, ex)
         if sort == 'VisFn':
             return self.make_visfn(hint)
+        if sort == 'RealArr':
+            from .core import zint
+            h, w = I.fresh_int(hint + '_h'), I.fresh_int(hint + '_w')
+            I.assume(z3.And(h >= 0, w >= 0))
+            V = z3.Function(I.fresh_name(hint + '_A'), z3.IntSort(), z3.IntSort(), z3.RealSort())
+            arr = SArr(h, w, lambda i, j: V(zint(i), zint(j)), 'real')
+            return SymInput(sort, arr, lambda m: {'unextractable': 'array produced by a stub'}, sizes=[h, w])
         if sort in ('BoolArr', 'IntArr'):
             from .core import zint
             h, w = I.fresh_int(hint + '_h'), I.fresh_int(hint + '_w')
